@@ -78,6 +78,17 @@ macro_rules! inst_1d {
                     interp.interp_array_into(&q1.view(), buf.view_mut()).unwrap();
                     check_log($rep, &format!("{} interp_array_into Ix1", label), 2);
                     if bits(buf.iter()) != b1 { $rep.fail(&format!("{}: interp_array_into (fast path) differs", label), J::Null); }
+                    // errors: an out-of-range element that is not the last one -- both paths must refuse, and the
+                    // fast path must stop writing where the general path stops
+                    let qbad: Vec<$e> = vec![0 as $e, (n + 5) as $e, 1 as $e];
+                    let mut bf = r1.clone(); bf.fill(77 as $e);
+                    let mut bg = r_dyn.clone(); bg.fill(77 as $e);
+                    verif::reset();
+                    let ef = interp.interp_array_into(&Array1::from(qbad.clone()), bf.view_mut()).is_err();
+                    let eg = interp.interp_array_into(&ArrayD::from_shape_vec(IxDyn(&[3]), qbad.clone()).unwrap(), bg.view_mut()).is_err();
+                    $rep.evaluations += 2;
+                    if !ef || !eg { $rep.fail(&format!("{}: out-of-range element in the middle: fast path error = {}, general path error = {} (both must be errors)", label, ef, eg), J::Null); }
+                    if bits(bf.iter()) != bits(bg.iter()) { $rep.fail(&format!("{}: after an out-of-range element the fast path and the general path left different buffers", label), J::Null); }
                 }};
             }
             let r = catch_unwind(AssertUnwindSafe(|| match storage {
@@ -132,6 +143,11 @@ macro_rules! inst_2d {
                     if bits(r0.iter()) != b1[lanes..2 * lanes].to_vec() {
                         $rep.fail(&format!("{}: 0-d query differs from the batch element", label), J::Null);
                     }
+                    let xbad: Vec<$e> = vec![0 as $e, (nx + 5) as $e, 1 as $e];
+                    let ef = interp.interp_array(&Array1::from(xbad.clone()), &Array1::from(qy.clone())).is_err();
+                    let eg = interp.interp_array(&ArrayD::from_shape_vec(IxDyn(&[3]), xbad.clone()).unwrap(), &yd).is_err();
+                    $rep.evaluations += 2;
+                    if !ef || !eg { $rep.fail(&format!("{}: out-of-range x in the middle: fast path error = {}, general path error = {} (both must be errors)", label, ef, eg), J::Null); }
                 }};
             }
             let r = catch_unwind(AssertUnwindSafe(|| match storage {
